@@ -12,7 +12,7 @@ EXPLANATION = (
     "(decoder / Default); nothing else writes it. R3 (osu!): the one-shot counting closure and the gradual increment function "
     "count every object kind with exactly one of n_circles/n_sliders/n_spinners (+1) and max_combo (+1), and the two are "
     "identical arm by arm. R4: Difficulty::passed_objects(n) records Some(n) for every n and get_passed_objects returns exactly that n "
-    "(usize::MAX when unset) — the structural half of 'counted = min(n, total)'. All other counting clauses (min(n,total), monotone, caps, sums) are "
+    "(usize::MAX when unset) — the structural half of 'counted = min(n, total)'. R5 (mania): ManiaObject::new (private helpers inlined) adds exactly 1 to n_hold_notes in the Slider, Spinner and Hold arms of its match on the object kind, nothing in the Circle arm, and no other condition (a duration test, say) decides a count. All other counting clauses (min(n,total), monotone, caps, sums) are "
     "arithmetic over runtime values: NOT decided.")
 
 BM = 'model::beatmap::Beatmap'
@@ -152,6 +152,7 @@ def run(ctx):
         ctx.require(bool(w), 'C14-R2', 'marks:' + m, '%s converter marks its result' % m, bad='no function of %s::convert sets is_convert = true' % m)
     r3(ctx, F)
     r4(ctx, F)
+    r5(ctx, F)
     ctx.not_decided('all other counting clauses: n_circles+n_sliders+n_spinners = objects considered, taiko max combo = hits, mania counts, '
                     'catch fruit counts, min(n,total), monotonicity in n, saturation above the total')
 
@@ -303,3 +304,92 @@ def r4(ctx, F):
                 ok_value = True
     ctx.require(ok_default and ok_value and len(alts) == 2, 'C14-R4', 'getter', 'get_passed_objects = recorded n as usize, usize::MAX when unset', getter.where(),
                 bad='Difficulty::get_passed_objects returns `%s`, expected the recorded n (as usize) or usize::MAX' % prov.show(rv, maxdepth=5))
+
+
+# ---- R5 (mania): hold notes are counted by object kind — one per Slider / Spinner / Hold object, none per Circle, nothing else decides
+MANIA_PARAMS = 'mania::object::ObjectParams'
+
+
+def r5(ctx, F):
+    import arms
+    import inline
+    fn0 = F.method('mania::object::ManiaObject', 'new', inherent_only=True)
+    if fn0 is None:
+        ctx.violation('C14-R5', 'anchor-missing:ManiaObject::new', 'mania::object::ManiaObject::new not found')
+        return
+    ctx.saw(fn0)
+    fn = inline.inlined(F, fn0, depth=2)
+    P = prov.prov_of(fn)
+    sws = [(bb, info) for bb, info in arms.enum_switches(fn) if prov.show(info['cond']) == 'discr(param#1.kind)']
+    dom = fn.cfg.dom()
+    sws.sort(key=lambda x: len(dom.get(x[0], ())))
+    writes = []
+    for bi, si, s in fn.assigns():
+        if any(isinstance(e, dict) and e.get('f') == 'n_hold_notes' and e.get('adt') == MANIA_PARAMS for e in s['p'].get('proj', [])):
+            v = P.rvalue(s['rv'], bi, si)
+            inc = None
+            for n in prov.walk(v, limit=50):
+                if n[0] == 'binop' and n[1] in ('AddWithOverflow', 'Add'):
+                    inc = prov.const_val(prov.strip(n[3]))
+                    break
+            writes.append((bi, s.get('ln'), inc))
+    if not sws or not writes:
+        ctx.violation('C14-R5', 'anchor-missing:kind-switch', 'ManiaObject::new: no match on the hit object kind / no n_hold_notes update found (%d switch(es), %d write(s))' % (len(sws), len(writes)), fn0.where())
+        return
+    info = sws[0][1]
+    kind_bb = sws[0][0]
+    wblocks = {bi for bi, _, _ in writes}
+    bad = []
+    counted = set()
+    paths = arms.feasible_paths(fn)
+    if paths is not None:
+        # path by path (flags set in an arm and tested after the match are propagated): number of updates met per object kind
+        per = {}
+        for p in paths:
+            if kind_bb not in p.blocks[:-1]:
+                per.setdefault('<no kind test>', set()).add(sum(1 for b in p.blocks if b in wblocks))
+                continue
+            nxt = p.blocks[p.blocks.index(kind_bb) + 1]
+            labs = [lab for lab, tgt in info['edges'] if tgt == nxt]
+            nw = sum(1 for b in p.blocks if b in wblocks)
+            for lab in labs:
+                per.setdefault(lab, set()).add(nw)
+        for lab, counts in sorted(per.items()):
+            if lab == 'Circle':
+                if counts != {0}:
+                    bad.append('a plain note (Circle) can pass an n_hold_notes update')
+            elif counts == {1}:
+                counted.add(lab)
+            elif counts != {0}:
+                bad.append('for %s the number of updates per object depends on more than the kind (%s per path)' % (lab, sorted(counts)))
+        if any(inc != '1' for _, _, inc in writes):
+            bad.append('an update adds %s' % sorted({str(inc) for _, _, inc in writes}))
+    else:
+        targets = {}
+        for lab, tgt in info['edges']:
+            targets.setdefault(tgt, set()).add(lab)
+        for tgt, labs in sorted(targets.items()):
+            reach = fn.cfg.reachable_from(tgt)
+            hit = sorted(wblocks & reach)
+            if 'Circle' in labs:
+                if hit:
+                    bad.append('a plain note (Circle) can reach the n_hold_notes update at line %s' % [ln for bi, ln, _ in writes if bi in hit])
+                continue
+            if not hit:
+                continue
+            if not fn.cfg.must_pass_through(tgt, hit):
+                bad.append('for %s the update is not made on every path' % sorted(labs))
+                continue
+            if any(a != b and fn.cfg.can_reach(a, b) for a in hit for b in hit) or any(fn.cfg.can_reach(s_, a) for a in hit for s_ in fn.cfg.succ[a]):
+                bad.append('for %s more than one update can run for the same object' % sorted(labs))
+                continue
+            if any(inc != '1' for bi, ln, inc in writes if bi in hit):
+                bad.append('for %s the update adds %s' % (sorted(labs), sorted({str(inc) for bi, ln, inc in writes if bi in hit})))
+                continue
+            counted |= labs
+    want = {lab for lab, _ in info['edges']} - {'Circle'}
+    if not bad and counted != want:
+        bad.append('hold notes are counted for kinds %s, expected %s' % (sorted(counted), sorted(want)))
+    ctx.require(not bad, 'C14-R5', 'mania:n_hold_notes', 'ManiaObject::new counts one hold note for each of %s and none for Circle, decided by the object kind alone' % sorted(want), fn0.where(),
+                bad='ManiaObject::new: %s — n_hold_notes no longer equals the number of long notes of the map (a long note of zero length, or a kind, is miscounted) in the one-shot, '
+                    'partial and gradual calculation alike' % '; '.join(bad))
